@@ -82,7 +82,19 @@ def run_dl(c):
     node.sdo.RESPONSE_TIMEOUT = TIMEOUT
     res = None
     try:
-        if c.get("via", "buffered") == "raw":
+        if c["kind"] == "dlbuf":
+            # the io.BufferedWriter that open() returns (default or small buffer), payload written in several write() calls
+            kw = {} if c["buffering"] is None else {"buffering": c["buffering"]}
+            with node.sdo.open(c["index"], c["sub"], "wb", size=c["size"], block_transfer=True,
+                               request_crc_support=c["crc_client"], **kw) as f:
+                pos, i = 0, 0
+                src = bytearray(data) if c.get("src") == "bytearray" else data
+                while pos < len(data):
+                    k = c["chunks"][i % len(c["chunks"])]
+                    f.write(src[pos:pos + k])
+                    pos += k
+                    i += 1
+        elif c.get("via", "buffered") == "raw":
             with node.sdo.open(c["index"], c["sub"], "wb", buffering=0, size=c["size"], block_transfer=True,
                                request_crc_support=c["crc_client"]) as f:
                 rest = data
@@ -104,7 +116,7 @@ def run_dl(c):
 
 def impl(c):
     k = c["kind"]
-    if k == "dl":
+    if k in ("dl", "dlbuf"):
         return run_dl(c)
     if k == "crc":
         import binascii
@@ -163,7 +175,7 @@ def oracle(c, o):
     if k == "crc":
         exp = bs.crc16(bytes(c["data"]), c["init"])
         return None if o == exp else ("crc_hqx_differs", f"crc_hqx over {len(c['data'])} bytes from {c['init']:#x}: {o!r} != {exp:#x}")
-    if k != "dl" or not conformant_case(c):
+    if k not in ("dl", "dlbuf") or not conformant_case(c):
         return None
     data = payload(c)
     res, store, bad, _ = o
@@ -172,6 +184,8 @@ def oracle(c, o):
     ok = res is None
     faults = c["faults"]
     what = f"n={len(data)} blks={c['blks']} crc={int(c['crc_client'])}{int(c['crc_server'])} faults={faults}"
+    if k == "dlbuf":
+        what += f" buffering={c['buffering']} write chunks={c['chunks']}"
     # --- safety, any fault pattern: a normal return has committed exactly the payload
     if ok and store != committed:
         return ("dl_normal_return_wrong_commit", f"{what}: returned normally, server holds "
@@ -229,7 +243,7 @@ def coq_case(c):
 
 
 def nontrivial(c):
-    if c["kind"] != "dl":
+    if c["kind"] not in ("dl", "dlbuf"):
         return len(c.get("data", c.get("log", [1]))) > 0
     return c["zeros"] + c["n"] + len(c["lit"]) > 7 or bool(c["faults"])
 
@@ -247,6 +261,17 @@ def dl(n, blks, crc_client=True, crc_server=True, faults=(), zeros=0, seed=1, li
     if not model:
         c["model"] = False
     return c
+
+
+def dlbuf(n, buffering, chunks, blks, crc_client=True, crc_server=True, faults=(), seed=1, zeros=0, src="bytes"):
+    """several write() calls through the BufferedWriter of open(); implementation + oracle only.
+    Only chunk sizes <= buffer size - 6 (or one single write): a larger chunk that meets a non-empty buffer makes the
+    current code fail with BlockingIOError (observation in notes/C12.md)."""
+    size = 1024 if buffering is None else buffering
+    assert len(chunks) == 1 and chunks[0] >= zeros + n or all(1 <= k <= size - 6 for k in chunks), (buffering, chunks)
+    return dict(kind="dlbuf", full=False, index=INDEX, sub=0, size=zeros + n, crc_client=crc_client, crc_server=crc_server,
+                blks=list(blks), faults=[list(f) for f in faults], zeros=zeros, seed=seed, n=n, lit=[], buffering=buffering,
+                chunks=list(chunks), src=src, model=False)
 
 
 def rblks(rng):
@@ -359,6 +384,32 @@ def gen_cases(rng, tier):
                        "xors": ["xors", j, rng.randint(0, 7), 1 << rng.randint(0, 7)],
                        "aborts": ["aborts", j, rng.choice([0x05040000, 0x06090011])]}[t])
         cases.append(dl(n, blks, *rng.choice(crcs), faults=fs, seed=rng.randrange(1 << 31)))
+    # ---- the buffered writer with several write() calls (implementation + oracle): default and small buffers, payloads
+    #      below / at / above the buffer size, chunk sizes up to buffer - 6, CRC on/off, undisturbed and one repaired loss
+    for buffering in (None, None, 8, 9, 16, 64, 100, 512):
+        size = 1024 if buffering is None else buffering
+        ns = sorted({1, 6, 7, 8, size - 7, size - 1, size, size + 1, size + 8, 2 * size + 5, 3 * size, 5 * size + 3,
+                     rng.randint(size + 1, 4 * size)})
+        if buffering is not None and not quick:
+            ns += [rng.randint(1, 6 * size) for _ in range(6)]
+        for n in ns:
+            if n < 1:
+                continue
+            pats = [[k] for k in sorted({1, 2, 7, 13, 100, 256, 333, size // 4, size // 2, size - 7, size - 6}) if 1 <= k <= size - 6]
+            pats += [[rng.randint(1, size - 6) for _ in range(rng.randint(2, 5))], [n]]
+            if quick:
+                pats = rng.sample(pats, min(len(pats), 4 if n > size else 2))
+            for chunks in pats:
+                if sum(1 for _ in range(0, n, max(1, min(chunks)))) > 3000:
+                    continue
+                cc, sc = rng.choice(crcs) if rng.random() < 0.3 else (True, True)
+                cases.append(dlbuf(n, buffering, chunks, rblks(rng) if rng.random() < 0.5 else [127], cc, sc, seed=rng.randrange(1 << 31),
+                                   src=rng.choice(["bytes", "bytes", "bytearray"])))
+                nseg = (n + 6) // 7
+                sbs = subblocks(nseg, cases[-1]["blks"])
+                if len(sbs) > 1 and rng.random() < 0.5:
+                    k = rng.randint(1, sbs[-1][0] - 1)          # a segment of a non-final sub-block
+                    cases.append(dict(cases[-1], faults=[["dropc", k + 1]], seed=rng.randrange(1 << 31)))
     # ---- outside the quantifier, model tie only: size not declared (multiple of 7), declared size too small
     cases.append(dl(14, [127], size=None, via="raw"))
     cases.append(dl(21, [2], size=None))
@@ -367,7 +418,7 @@ def gen_cases(rng, tier):
     cases.append(dl(20, [3], size=10))               # declared size too small: RuntimeError on the next write
     cases.append(dl(10, [3], size=20, via="raw"))    # declared size too large: write returns None
     if tier == "search":
-        cases = [c for c in cases if c["kind"] == "dl"]
+        cases = [c for c in cases if c["kind"] in ("dl", "dlbuf")]
     rng.shuffle(cases)        # spread the long transfers over the model-evaluation chunks
     return cases
 
